@@ -20,7 +20,8 @@ def check_one(cfg, exp):
     if len(wids) != n:
         return ('world_count', n, len(wids))
     views = [None, tuple([slice(0, 1)] + [slice(None)] * (n - 1)), tuple([slice(None)] * (n - 1) + [slice(1, None)]),
-             tuple([0] * (n - 1) + [slice(None)]), tuple(np.array([0, s - 1]) for s in shape)]
+             tuple([0] * (n - 1) + [slice(None)]), tuple([-1] + [slice(None)] * (n - 1)), tuple([slice(None)] * (n - 1) + [-1]),
+             tuple(np.array([0, s - 1]) for s in shape)]
     grids = np.meshgrid(*[np.arange(s) for s in shape], indexing='ij')
     for k in range(n):
         want = np.array(exp['world'][k], dtype=float).reshape(shape)
